@@ -117,6 +117,7 @@ func checkC05(ctx *Ctx, r *Report) {
 	c05EntryPointFollowsRemoval(ctx, r)
 	c05OpenAPIMappingNames(ctx, r)
 	c05RefFilePattern(ctx, r)
+	c05GeneratedNamesUnique(ctx, r)
 	c15ReferenceSiblings(ctx, r)
 	c07ReferenceByBareName(ctx, r)
 }
@@ -1856,4 +1857,83 @@ func c05RefFilePattern(ctx *Ctx, r *Report) {
 	})
 	r.Count("regular expressions in openapi.getRefName", n)
 	r.Floor("regular expressions in openapi.getRefName", 1)
+}
+
+// c05GeneratedNamesUnique: a pass that creates an object under a name it computes (concatenation of parent and
+// field names, a type name built from the branches of a union) can compute the name of an object that exists:
+// `Panel.options.legend` and `PanelOptions.legend` both give PanelOptionsLegend, and AddObject replaces silently —
+// one of the two structs disappears and both fields refer to the survivor. Every ast.NewObject in the compiler
+// passes whose name is not taken from the pass's configuration is preceded, in the same function, by a test that the
+// name is free (a lookup of that name in a set / the schema / the visitor's new objects).
+func c05GeneratedNamesUnique(ctx *Ctx, r *Report) {
+	p := ctx.Pkg("internal/ast/compiler")
+	newObject := ctx.LookupFunc("internal/ast", "NewObject")
+	if p == nil || newObject == nil {
+		r.Undecided("anchor lost: compiler / ast.NewObject")
+		return
+	}
+	info := p.TypesInfo
+	n := 0
+	ctx.AllFuncDecls(func(pk *packages.Package, fd *ast.FuncDecl, obj *types.Func) {
+		if pk != p || fd.Body == nil {
+			return
+		}
+		seen := 0
+		ast.Inspect(fd.Body, func(m ast.Node) bool {
+			c, ok := m.(*ast.CallExpr)
+			if !ok || callee(info, c) != newObject || len(c.Args) < 2 {
+				return true
+			}
+			name := ast.Unparen(c.Args[1])
+			// names given by the configuration of the pass (pass.As, pass.Object.Object, …) are the user's choice
+			if root := rootIdent(name); root != nil {
+				if fd.Recv != nil && len(fd.Recv.List) > 0 && len(fd.Recv.List[0].Names) > 0 && objOf(info, root) == info.Defs[fd.Recv.List[0].Names[0]] {
+					return true
+				}
+			}
+			id, isIdent := name.(*ast.Ident)
+			if !isIdent {
+				return true
+			}
+			n++
+			seen++
+			tested := false
+			ast.Inspect(fd.Body, func(k ast.Node) bool {
+				if k == nil || k.Pos() > c.Pos() {
+					return true
+				}
+				switch x := k.(type) {
+				case *ast.IndexExpr:
+					if _, isMap := info.TypeOf(x.X).Underlying().(*types.Map); isMap && isIdentOf(info, x.Index, objOf(info, id)) {
+						tested = true
+					}
+				case *ast.CallExpr:
+					if f := callee(info, x); f != nil && (strings.HasPrefix(f.Name(), "Has") || strings.HasPrefix(f.Name(), "Locate")) {
+						for _, a := range x.Args {
+							found := false
+							ast.Inspect(a, func(q ast.Node) bool {
+								if qi, ok := q.(*ast.Ident); ok && objOf(info, qi) == objOf(info, id) {
+									found = true
+								}
+								return true
+							})
+							if found {
+								tested = true
+							}
+						}
+					}
+				}
+				return true
+			})
+			cons := fmt.Sprintf("%s creates an object named %s", ctx.FuncName(obj), id.Name)
+			if seen > 1 {
+				cons = fmt.Sprintf("%s #%d", cons, seen)
+			}
+			r.Check(tested, "traverse/generated-names-unique", cons, c.Pos(), "the computed name is looked up before the object is created",
+				"the pass creates an object under the computed name "+id.Name+" without looking whether an object of that name exists (in the schema or among the objects it created): the new object replaces the other one silently, and every reference to either resolves to the survivor")
+			return true
+		})
+	})
+	r.Count("objects created under computed names", n)
+	r.Floor("objects created under computed names", 3)
 }
